@@ -497,6 +497,53 @@ def rule_m(ctx: Ctx, env: EnvA):
     ctx.ob("C01.m", f"{env.name}._step:pairing", ok, sl.where, why, construct=f"{sl.fi.qualname}:pairing")
 
 
+def rule_n(ctx: Ctx, env: EnvA):
+    """C01.n MDCPDP carry bookkeeping and depot flags (the env has no solution checker, so its
+    node-type tests are the only guard of the capacity rule): carry' = carry + [D <= a < split]
+    - [a >= split] with split = n // 2 + D; back_flag = (a < D) & (available[a] == 0);
+    current_depot' = where(back_flag, a, current_depot)."""
+    if env.name != "MDCPDPEnv":
+        return
+    sl = env.slot("_step")
+    name = sl.td.name
+    carry = sl.cell("current_carry")
+    p = nf.poly(carry) - nf.poly(vg.mk("cell0", name, "current_carry"))
+    mon = p.monos()
+    ok, why = False, f"carry' - carry = {p.show(2)[:160]}"
+    if len(mon) == 2 and sorted(c for c, _ in mon) == [-1, 1]:
+        plus = [fs[0][0] for c, fs in mon if c == 1 and len(fs) == 1]
+        minus = [fs[0][0] for c, fs in mon if c == -1 and len(fs) == 1]
+        if plus and minus:
+            def forms(node):
+                return sorted((l.cmp()[0].show(3), l.cmp()[1]) for l in nf.boolwalk(node, T.BOOL_CELLS) if l.cmp() is not None and l.conj)
+
+            def sig(node):
+                out = []
+                for l in nf.boolwalk(node, T.BOOL_CELLS):
+                    c = l.cmp()
+                    if c is None or not l.conj:
+                        return None
+                    pos = any("action" in vg.cells_of(a) for a in c[0].side_atoms(True))
+                    neg = any("action" in vg.cells_of(a) for a in c[0].side_atoms(False))
+                    halves = any(a.op == "//" for a in c[0].atoms())
+                    out.append(("a>=" if pos else "a<", "split" if halves else "depots", c[1]))
+                return sorted(out)
+            sp, sm = sig(plus[0]), sig(minus[0])
+            ok = sp == sorted([("a<", "split", ">0"), ("a>=", "depots", ">=0")]) and sm == [("a>=", "split", ">=0")]
+            why = f"carry' = carry + [{forms(plus[0])}] - [{forms(minus[0])}]: pickup = depots <= a < split, delivery = a >= split: {ok}"
+    ctx.ob("C01.n", "MDCPDPEnv._step:carry", ok, sl.where, why, construct="MDCPDPEnv._step:carry-update")
+    dep = nf.strip(sl.cell("current_depot"))
+    okd, whyd = False, "current_depot is not where(back_flag, action, current_depot)"
+    if nf._fn(dep) == "torch.where" and len(dep.args) == 4:
+        cnd, a, b = dep.args[1:]
+        lv = nf.boolwalk(cnd, T.BOOL_CELLS)
+        is_depot = [l for l in lv if l.cmp() is not None and l.conj and l.cmp()[1] == ">0" and any("action" in vg.cells_of(x) for x in l.cmp()[0].side_atoms(False)) and not any(x.op == "//" for x in l.cmp()[0].atoms())]
+        visited = [l for l in lv if l.conj and "available" in vg.cells_of(l.node) and "action" in vg.cells_of(l.node)]
+        okd = bool(is_depot) and bool(visited) and "action" in vg.cells_of(a) and nf.strip(b).op == "cell0" and nf.strip(b).args[1] == "current_depot"
+        whyd = f"current_depot' = where((a < D) & (available[a] == 0), a, current_depot): depot test {bool(is_depot)}, already-visited test {bool(visited)}"
+    ctx.ob("C01.n", "MDCPDPEnv._step:current_depot", okd, sl.where, whyd, construct="MDCPDPEnv._step:current-depot")
+
+
 def run(ctx: Ctx):
     registries = {
         "context": _registry(ctx, "rl4co/models/nn/env_embeddings/context.py", "env_context_embedding"),
@@ -518,6 +565,7 @@ def run(ctx: Ctx):
         rule_g(ctx, env, registries)
         rule_k(ctx, env)
         rule_m(ctx, env)
+        rule_n(ctx, env)
 
 
 def run_thorough(ctx: Ctx):
